@@ -77,3 +77,16 @@ Theorem C17_two_comments_on_the_same_code_give_the_same_assignment :
 Proof. exact line_comment_text_is_irrelevant. Qed.
 Print Assumptions C17_two_comments_on_the_same_code_give_the_same_assignment.
 
+(* comment lines and blank lines inside a block (Line.parse_block: the body of a headed expressions block, one assignment per
+   line): wherever such a line is put and whatever it says, the assignments read are the same *)
+Theorem C17_comment_lines_inside_a_block_are_inert :
+  forall ls1 lead c ls2, all_chars is_space lead = true ->
+    parse_block (ls1 ++ (lead ++ String "#"%char c) :: ls2) = parse_block (ls1 ++ ls2).
+Proof. exact comment_lines_are_inert. Qed.
+Print Assumptions C17_comment_lines_inside_a_block_are_inert.
+
+Theorem C17_a_block_is_read_as_its_assignment_lines_alone :
+  forall ls, parse_block ls = parse_block (filter (fun l => negb (skipped l)) ls).
+Proof. exact parse_block_filter. Qed.
+Print Assumptions C17_a_block_is_read_as_its_assignment_lines_alone.
+
